@@ -2,8 +2,16 @@
 """writes MANIFEST.json from vc/config.json + vc/manifest_texts.json (single source of truth for what is claimed)"""
 import json, os
 ROOT = os.path.dirname(os.path.dirname(os.path.abspath(__file__)))
-cfg = json.load(open(os.path.join(ROOT, "vc", "config.json")))
+import sys
+sys.path.insert(0, os.path.join(ROOT, "tools"))
+import run_check
+cfg = run_check.load_config()
 texts = json.load(open(os.path.join(ROOT, "vc", "manifest_texts.json")))
+td = os.path.join(ROOT, "vc", "manifest_texts.d")
+if os.path.isdir(td):
+    for f in sorted(os.listdir(td)):
+        if f.endswith(".json"):
+            texts["claimed"].update(json.load(open(os.path.join(td, f))))
 props = [json.loads(l) for l in open(os.path.join(ROOT, "properties.jsonl"))]
 checks = []
 na = []
